@@ -948,3 +948,64 @@ def run(prog: Program, chk: Check) -> None:
     guard(chk, r16_l, prog, chk)
     guard(chk, r16_m, prog, chk)
     guard(chk, r16_n, prog, chk)
+    guard(chk, r16_o, prog, chk)
+
+
+# ------------------------------------------------------------------- R16.o
+def r16_o(prog: Program, chk: Check) -> None:
+    from ..minterp import AssertionFailed, Interp, ModelError, Obj, PyRaise, Sym, Unsupported
+
+    chk.rule(
+        "R16.o",
+        "who may be told that an f is missing, as a finite model: NameCheckVisitor._maybe_show_missing_f_error is interpreted from its AST for the string '{y} and {x}' (both "
+        "names exist) as it occurs in seven real statements parsed by CPython - assigned, returned, passed to a call, passed to a call that has keywords of those names, followed by "
+        ".format(), alone as a docstring, and as the literal part of an f-string (where CPython un-escaped `{{y}}` to `{y}`): a fix is proposed for the first three only. Inside an "
+        "f-string the proposal would nest an f-string in the literal part - f'{x}f' {y}'' - which does not parse",
+        floor=2,
+    )
+    ncv = prog.cls("NameCheckVisitor")
+    fn = ncv.methods.get("_maybe_show_missing_f_error")
+    if fn is None:
+        raise AnchorError("NameCheckVisitor._maybe_show_missing_f_error not found")
+    cases = [
+        ("v = '{y} and {x}'", True), ("return_('{y} and {x}')", True), ("g('{y} and {x}')", True), ("g('{y} and {x}', x=1, y=2)", False),
+        ("'{y} and {x}'.format(x=1, y=2)", False), ("'{y} and {x}'", False), ("v = f'{x} {{y}} and {{x}}'", False),
+    ]
+    wrong, crashes = [], []
+    n = 0
+    for src, want in cases:
+        n += 1
+        tree = ast.parse(src)
+        # the string constant and its ancestors, as node_context sees them (the constant itself is parent 1)
+        target = None
+        for node in ast.walk(tree):
+            if isinstance(node, ast.Constant) and isinstance(node.value, str) and "{y}" in node.value:
+                target = node
+        if target is None:
+            raise AnchorError(f"R16.o: no string constant with a brace in {src!r}")
+        chain = [target]
+        cur = target
+        parents = {id(c): p for p in ast.walk(tree) for c in ast.iter_child_nodes(p)}
+        while id(cur) in parents:
+            cur = parents[id(cur)]
+            chain.append(cur)
+        proposed: List[object] = []
+        self_obj = Obj(
+            "NameCheckVisitor", _name_exists=lambda name: True, node_context=Obj("StackedContexts", nth_parent=lambda k, chain=chain: chain[k - 1] if k - 1 < len(chain) else None),
+            _show_error_if_checking=lambda node, msg=None, error_code=None, replacement=None, **kw: proposed.append(replacement), replace_node=lambda node, new: new,
+        )
+        it = Interp({}, {}, (), {}, None, {}, {}, {"ast": ast, "ErrorCode": Obj("ErrorCode", missing_f=Sym("missing_f")), "__native_getattr__": True, "__concrete_fstrings__": True})
+        d = {"statement": src}
+        try:
+            it.call_def(fn, [self_obj, target, target.value], fn)
+        except Unsupported as u:
+            raise AnchorError(f"_maybe_show_missing_f_error cannot be modelled: {u}")
+        except (AssertionFailed, PyRaise, ModelError) as e:
+            crashes.append({**d, "error": str(e)})
+            continue
+        if bool(proposed) != want:
+            wrong.append({**d, "fix proposed": bool(proposed), "expected": want})
+    chk.model_evaluations += n
+    site = prog.site("name_check_visitor", fn)
+    chk.ob("R16.o", "name_check_visitor::NameCheckVisitor._maybe_show_missing_f_error::proposes-only-for-plain-strings", not wrong, site, f"{n} statements, {len(wrong)} judged otherwise" + (f"; first: {wrong[0]}" if wrong else ""), witness=wrong[:4])
+    chk.ob("R16.o", "name_check_visitor::NameCheckVisitor._maybe_show_missing_f_error::no-crash", not crashes, site, f"{len(crashes)} crashes" + (f"; first: {crashes[0]}" if crashes else ""), witness=crashes[:3])
